@@ -995,7 +995,17 @@ def c18(tier, seed):
             bad.append('re-parsing stored newick %r raised %s' % (tx.tree_str, type(e).__name__))
         if bad:
             ex.fail(cid, D, bad, call='Taxonomy(%r, use_internal_name=%s)' % (nwk, naming == 'own'))
-        ex.submit(cid, D, o.tags, ['txname', 'txpath', 'txnewick', 'txsub'], emit=['tree'], hist=False, extra=nwk)
+        # the model's Newick READER and ete3's, on the texts pyham wrote (stored text of the tree, text of every subtree)
+        def ete_s(nd_):
+            return '("' + nd_.name + '"' + ''.join(' ' + ete_s(c_) for c_ in nd_.children) + ')'
+        pq_ = []
+        for txt_ in [tx.tree_str] + [x_.split('=', 1)[1] for x_ in o.get('txsub')][:6]:
+            try:
+                o.put('txparse', txt_ + ' => ' + ete_s(ete3.Tree(txt_, format=1, quoted_node_names=True)))
+            except Exception as e:      # noqa
+                o.put('txparse', txt_ + ' => none')
+            pq_.append('(parse %s)' % gen.q(txt_))
+        ex.submit(cid, D, o.tags, ['txname', 'txpath', 'txnewick', 'txsub', 'txparse'], emit=['tree'], hist=False, extra=nwk, queries=pq_)
         # duplicate leaf names are rejected with KeyError
         lv = [p for p in gen.paths(T) if not gen.sub(T, p)[1]]
         if len(lv) >= 2 and k % 3 == 0:
